@@ -455,6 +455,8 @@ impl<'a> GeneratorState<'a> {
     fn generate_sizeof(&mut self, expr: &Expr, pos: usize) -> Result<ExprType, Error> {
         match expr {
             Expr::Type(s) => {
+                // The spelling between the words of a type is layout
+                let s = s.split_whitespace().collect::<Vec<_>>().join(" ");
                 if s.contains("*") {
                     Ok(ExprType::Immediate(2))
                 } else if s == "char" {
@@ -467,7 +469,7 @@ impl<'a> GeneratorState<'a> {
                         .syntax_error("Sizeof only works on variables and simple types", pos))
                 }
             }
-            Expr::Identifier(var, _) => {
+            Expr::Identifier(var, sub) => {
                 // X, Y and unknown names are not variables
                 let v = match self.compiler_state.variables.get(var) {
                     Some(v) => v,
@@ -478,6 +480,19 @@ impl<'a> GeneratorState<'a> {
                         ))
                     }
                 };
+                // A subscripted name denotes one element, not the whole array
+                if !matches!(**sub, Expr::Nothing) {
+                    return match v.var_type {
+                        VariableType::CharPtr => Ok(ExprType::Immediate(1)),
+                        VariableType::ShortPtr | VariableType::CharPtrPtr => {
+                            Ok(ExprType::Immediate(2))
+                        }
+                        _ => Err(self.compiler_state.syntax_error(
+                            "Sizeof only works on variables and simple types",
+                            pos,
+                        )),
+                    };
+                }
                 match v.var_type {
                     VariableType::CharPtr => {
                         if v.var_const {
